@@ -174,7 +174,7 @@ OutKeys(prog, j, acc) ==
                           : m \in 1..Len(o.outs)} \ {SKIP} IN
        CASE o.op \in {"apply", "select"} -> OutKeys(prog, j + 1, mine)       \* the record is replaced
          [] o.op = "assign" -> OutKeys(prog, j + 1, acc \cup mine)
-         [] o.op = "sink"   -> OutKeys(prog, j + 1, acc \cup {SELF})
+         [] o.op = "sink"   -> OutKeys(prog, j + 1, acc)                  \* a sink forwards its input: it names no key of the record
          [] OTHER           -> OutKeys(prog, j + 1, acc)
 
 \* batch(n) as the last operator: groups of n consecutive records; on an error only full groups were emitted
